@@ -19,7 +19,7 @@ def gen_case(rng, i, tier):
     bounds = [0]
     for n in lens:
         bounds.append(bounds[-1] + n)
-    ops = ["case %d" % i] + links + ["table", "ref 0", "open 0 1 %d" % rng.choice([4096, 513, 1]), "open 1 1 4096"]
+    ops = ["case %d" % i] + links + V.gen_splits(rng, links) + ["table", "ref 0", "open 0 1 %d" % rng.choice([4096, 513, 1]), "open 1 1 4096"]
     if rng.random() < 0.3:
         ops.append("open 2 1 4096")
 
